@@ -7,6 +7,7 @@ import dcgen
 import impl as implmod
 
 PROP = "C03"
+CONSTS = ['mem']          # constant tables of the models this property depends on
 RULE = ("random access histories (direct preloads, counted/uncounted reads, writes of widths 8/16/32 at every byte "
         "offset incl. the crossing ones, aliases +-2^32, invalid addresses, resets) on random geometries (index bits 0-3, "
         "block bits 0-3, assoc 1-8, WT/WB, LRU/PLRU, penalties 0-5) over an address universe of assoc+2 tags per set; "
